@@ -258,6 +258,56 @@ def is_new_helper(f):
     return f.rawdef not in known and f.defp not in known
 
 
+def twins(F):
+    """{def of H: (def path of V, display name of V)}: H does not exist on the reference tree, V does, has the same simple name and is
+    now nothing but `V(self, a, b..) = H(accessor(self), a, b..)` - the body of V moved into H (typically from a wrapper type to the
+    type it wraps) and V was left as a forwarder. A call of H from anywhere is then what a call of V was: it is presented to the
+    rules under V's name (with H's receiver), and H's field accesses count as V's."""
+    tw = getattr(F, '_twins', None)
+    if tw is not None:
+        return tw
+    tw = {}
+    F._twins = tw           # (set first: the runs below must not recurse into this computation)
+    for V in F.fns.values():
+        if V.kind not in ('fn', 'assoc') or is_new_helper(V) or len(V.blocks) > 12:
+            continue
+        local = [(bb, t) for bb, t in V.calls() if callee_def(t) in F.fns]
+        cands = [(bb, t) for bb, t in local if F.fns[callee_def(t)].name == V.name and is_new_helper(F.fns[callee_def(t)]) and callee_def(t) != V.defp]
+        if len(cands) != 1 or len(local) > 2:
+            continue
+        H = F.fns[callee_def(cands[0][1])]
+        if H.arg_count != V.arg_count or H.arg_count < 1:
+            continue
+        try:
+            ps = Interp(F, mode={'inline_private': False, 'combinators': False}).run(V)
+        except Exception:
+            continue
+        ok = bool(ps)
+        for p_ in ps:
+            if p_.outcome[0] != 'return':
+                continue
+            cs = [e for e in p_.effects if e.kind == "call" and e.term is cands[0][1]]
+            if len(cs) != 1:
+                ok = False
+                break
+            a = cs[0].data[2]
+            fwd = all(strip(a[i]) == ('param', 0, i + 1) for i in range(1, H.arg_count))
+            recv = mentions(a[0], lambda x: x == ('param', 0, 1))
+            res = strip(p_.outcome[1])
+            same_res = res == ('c', 'unit') or (res[0] == 'call' and res[3] == cs[0].data[3])
+            if not (fwd and recv and same_res):
+                ok = False
+                break
+        if ok and any(p_.outcome[0] == 'return' for p_ in ps):
+            tw[H.defp] = (V.defp, callee_name_of_fn(V))
+    return tw
+
+
+def callee_name_of_fn(f):
+    from facts import strip_generics
+    return strip_generics(f.defp)
+
+
 OPT = 'core::option::Option'
 RES = 'core::result::Result'
 
@@ -270,13 +320,20 @@ def _mk_tuple(vals):
     return ('agg', 'tuple', '', '', tuple((str(i), x) for i, x in enumerate(vals)))
 
 
-def _comb(adt, table):
+def _comb(adt, table, byref=False):
     """table: variant -> lambda(it, st, payload, args, ctx) yielding (state, result-or-None)"""
     def h(it, st, args, fn, bb, frame, t, depth, site):
         if not args:
             return
         ctx = (fn, bb, frame, t, depth, site)
-        for st2, var, pay in it._fork_variant(st, args[0], adt, fn, bb, frame):
+        recv = args[0]
+        if byref and recv[0] == 'ref':
+            # `opt.is_some()` takes `&self`: the decision is about the value behind the reference (it carries the provenance)
+            try:
+                recv = it._read_lv(st, recv[1])
+            except Exception:
+                recv = args[0]
+        for st2, var, pay in it._fork_variant(st, recv, adt, fn, bb, frame):
             f = table.get(var)
             if f is None:
                 return
@@ -342,8 +399,8 @@ COMBINATORS = {
     'core::option::Option::map_or_else': _comb(OPT, {
         'Some': lambda it, st, p, a, c: _app(it, st, a[2], [p], c),
         'None': lambda it, st, p, a, c: _app(it, st, a[1], [], c)}),
-    'core::option::Option::is_some': _comb(OPT, {'Some': _const(lambda p, a: C(True)), 'None': _const(lambda p, a: C(False))}),
-    'core::option::Option::is_none': _comb(OPT, {'Some': _const(lambda p, a: C(False)), 'None': _const(lambda p, a: C(True))}),
+    'core::option::Option::is_some': _comb(OPT, {'Some': _const(lambda p, a: C(True)), 'None': _const(lambda p, a: C(False))}, byref=True),
+    'core::option::Option::is_none': _comb(OPT, {'Some': _const(lambda p, a: C(False)), 'None': _const(lambda p, a: C(True))}, byref=True),
     'core::result::Result::map': _comb(RES, {
         'Ok': lambda it, st, p, a, c: _app(it, st, a[1], [p], c, lambda r: _mk(RES, 'Ok', r)),
         'Err': _pass(RES, 'Err')}),
@@ -358,8 +415,8 @@ COMBINATORS = {
         'Err': lambda it, st, p, a, c: _app(it, st, a[1], [p], c)}),
     'core::result::Result::ok': _comb(RES, {'Ok': _const(lambda p, a: _mk(OPT, 'Some', p)), 'Err': _const(lambda p, a: _mk(OPT, 'None'))}),
     'core::result::Result::err': _comb(RES, {'Ok': _const(lambda p, a: _mk(OPT, 'None')), 'Err': _const(lambda p, a: _mk(OPT, 'Some', p))}),
-    'core::result::Result::is_ok': _comb(RES, {'Ok': _const(lambda p, a: C(True)), 'Err': _const(lambda p, a: C(False))}),
-    'core::result::Result::is_err': _comb(RES, {'Ok': _const(lambda p, a: C(False)), 'Err': _const(lambda p, a: C(True))}),
+    'core::result::Result::is_ok': _comb(RES, {'Ok': _const(lambda p, a: C(True)), 'Err': _const(lambda p, a: C(False))}, byref=True),
+    'core::result::Result::is_err': _comb(RES, {'Ok': _const(lambda p, a: C(False)), 'Err': _const(lambda p, a: C(True))}, byref=True),
 }
 
 
@@ -396,10 +453,77 @@ def _as_ref(adt, mutable):
     return h
 
 
+def _as_deref(mutable):
+    # Option<T>::as_deref(&self) = match self { Some(t) => Some(t.deref()), None => None }
+    def h(it, st, args, fn, bb, frame, t, depth, site):
+        r = args[0] if args else ('unk', '')
+        if r[0] != 'ref':
+            return
+        lv = r[1]
+        try:
+            pointee = it._read_lv(st, lv)
+        except Exception:
+            return
+        for st2, var, pay in it._fork_variant(st, pointee, OPT, fn, bb, frame):
+            if pay is None:
+                yield st2, _mk(OPT, var)
+            else:
+                inner = ('ref', (lv[0], lv[1] + (('dc', var), ('f', '0'))), mutable)
+                yield st2, _mk(OPT, var, ('call', 'core::ops::DerefMut::deref_mut' if mutable else 'core::ops::Deref::deref', (inner,), site))
+    return h
+
+
+COMBINATORS['core::option::Option::as_deref'] = _as_deref(False)
+COMBINATORS['core::option::Option::as_deref_mut'] = _as_deref(True)
 COMBINATORS['core::option::Option::as_ref'] = _as_ref(OPT, False)
 COMBINATORS['core::option::Option::as_mut'] = _as_ref(OPT, True)
 COMBINATORS['core::result::Result::as_ref'] = _as_ref(RES, False)
 COMBINATORS['core::result::Result::as_mut'] = _as_ref(RES, True)
+
+def _checked_sub(it, st, args, fn, bb, frame, t, depth, site):
+    # std contract: a.checked_sub(b) = if a < b { None } else { Some(a - b) }
+    if len(args) != 2:
+        return
+    a, b = args
+    cond = ('bin', 'Lt', a, b)
+    targets = [(0, None), (1, None)]
+    known = st.memo.get(cond)
+    if known in (None, 1):
+        s2 = st.copy() if known is None else st
+        if known is None:
+            s2.memo[cond] = 1
+            s2.decisions.append(Decision(cond, 1, fn, bb, frame, targets))
+        yield s2, _mk(OPT, 'None')
+    if known in (None, 0):
+        if known is None:
+            st.memo[cond] = 0
+            st.decisions.append(Decision(cond, 0, fn, bb, frame, targets))
+        yield st, _mk(OPT, 'Some', ('bin', 'Sub', a, b))
+
+
+for _ity in ('usize', 'u8', 'u16', 'u32', 'u64', 'u128'):
+    COMBINATORS['core::num::<impl %s>::checked_sub' % _ity] = _checked_sub
+
+
+def _slice_get(it, st, args, fn, bb, frame, t, depth, site):
+    # std contract: s.get(i) = if i < s.len() { Some(&s[i]) } else { None }   (element index only; ranges stay opaque)
+    if len(args) != 2:
+        return
+    dest = t.get('dest') or {}
+    try:
+        dty = fn.locals[dest['l']]['ty'] if not dest.get('pr') else ''
+    except Exception:
+        dty = ''
+    if not re.match(r'^(core|std)::option::Option<&', dty) or re.match(r'^(core|std)::option::Option<&(mut )?\[', dty):
+        return
+    s_, i_ = args
+    opaque = ('call', 'core::slice::<impl [T]>::get', tuple(args), site)
+    elem = ('ref', (s_[1][0], s_[1][1] + (('idx', i_),)), False) if s_[0] == 'ref' else ('ref', (('ptr', s_), (('idx', i_),)), False)
+    for st2, var, pay in it._fork_variant(st, opaque, OPT, fn, bb, frame):
+        yield st2, (_mk(OPT, 'Some', elem) if var == 'Some' else _mk(OPT, 'None'))
+
+
+COMBINATORS['core::slice::<impl [T]>::get'] = _slice_get
 
 CF = 'core::ops::ControlFlow'
 
@@ -897,6 +1021,10 @@ class Interp:
     def _call(self, fn, frame, bb, t, st, depth):
         """generator of (state, result-or-None)"""
         name = callee_name(t)
+        tw_ = twins(self.facts).get(callee_def(t)) if getattr(self.facts, '_twins', None) or callee_def(t) in self.facts.fns else None
+        is_twin = bool(tw_) and getattr(fn, 'root', fn.defp) != tw_[0] and fn.defp != tw_[0]
+        if is_twin:
+            name = tw_[1]      # (a function whose body moved here from `name`, which now only forwards: see twins())
         args = tuple(self._operand(st, frame, a, fn) for a in t['args'])
         # call values/effects carry a snapshot of what each reference argument points at
         def snapped(a, depth=0):
@@ -971,7 +1099,7 @@ class Interp:
                 elif len(args) > 1:
                     spread = [('field', args[1], str(i)) for i in range(target_fn.arg_count - 1)]
                 bind = [selfarg] + spread
-        if target_fn is not None and depth < self.max_depth and self.inline(target_fn, depth, name):
+        if target_fn is not None and depth < self.max_depth and (self.user_inline(target_fn, depth, name) if is_twin else self.inline(target_fn, depth, name)):
             if not self.user_inline(target_fn, depth, name):
                 eff.kind = 'call_inlined'      # an extracted helper opened up by the analysis mode: its body's effects follow, the call itself is not an effect
             nf = st.nframes
